@@ -104,3 +104,9 @@ def r2(ctx):
 def r3(ctx):
     from . import c13
     c13.r2(ctx)
+
+
+@rule("C17", "R4", "OWN", "the metric only reads the model it is given")
+def r_readonly(ctx):
+    from .c06 import readers_do_not_write
+    readers_do_not_write(ctx, ["cluster_metrics.bayesian_information_criterion" if "C17" == "C16" else "cluster_metrics.calinski_harabasz_index"])
